@@ -1458,6 +1458,24 @@ def _install(w):
         return load_app
     patch(Loader, 'load_app', mk_load_app)
 
+    def mk_bl_event(orig):
+        def _handle_apps_blacklist_event(self, node_name):
+            if not _fops_on(self):
+                return orig(self, node_name)
+            import fnmatch as _fn
+            new = list(self.backend.get_default(z.BLACKEDOUT_APPS) or [])
+            names = list(self.cell.apps)
+            tok = ','.join('%d:%s' % (aid_of(n), ''.join('1' if _fn.fnmatch(n.split('#')[0], b) else '0' for b in new) or '-')
+                           for n in names) or '-'
+            r = orig(self, node_name)
+            w.run.op('fops blacklist ' + tok,
+                     ','.join('%d:%d' % (aid_of(n), 1 if self.cell.apps[n].blacklisted else 0)
+                              for n in names if n in self.cell.apps) or '-')
+            w.stats['fops:blacklist'] += 1
+            return r
+        return _handle_apps_blacklist_event
+    patch(Master, '_handle_apps_blacklist_event', mk_bl_event)
+
     def mk_load_bucket(orig):
         def load_bucket(self, bucketname):
             if not _live(self) or bucketname in self.buckets:
